@@ -25,7 +25,7 @@ BUDGET = {"quick": (320, 4), "thorough": (6400, 16)}
 @st.composite
 def step(draw):
     k = draw(st.sampled_from(["dumps", "call", "call", "graph", "graph", "match", "match", "match01", "read", "mutate", "mutate"]))
-    return {"k": k, "i": draw(st.integers(0, 7)), "j": draw(st.integers(0, 7)), "how": draw(st.integers(0, 10)),
+    return {"k": k, "i": draw(st.integers(0, 7)), "j": draw(st.integers(0, 7)), "how": draw(st.sampled_from([0, 1, 1, 2, 3, 3, 3, 4, 5, 6, 7, 8, 9, 10])),
             "vals": draw(st.lists(st.floats(min_value=-3, max_value=3, allow_nan=False).filter(lambda x: abs(x) > 0.01), min_size=1, max_size=5))}
 
 
@@ -68,7 +68,8 @@ def case(draw, tier):
     if draw(st.integers(0, 2)) == 0:
         t, p = draw(tdm_pair())
         scripts.extend([{"text": t}, {"text": p}])
-    scripts.append(draw(S.script(S.Cfg(max_items=6, depth=1, params=True, sym_vars=draw(st.booleans()), regs=draw(st.booleans())))))
+    scripts.append(draw(S.script(S.Cfg(max_items=6, depth=1, params=True, sym_vars=draw(st.booleans()), regs=draw(st.booleans()),
+                                       array_weight=2))))
     for _ in range(draw(st.integers(0, 2))):
         scripts.append(draw(S.script(S.Cfg(max_items=6, depth=1, regs=draw(st.booleans()), params=draw(st.booleans())))))
     steps = draw(st.lists(step(), min_size=1, max_size=40 if big else 15))
